@@ -181,6 +181,10 @@ class SyncDriver:
     def now(self) -> float:
         return self.sched.now if self.sched is not None else 0.0
 
+    def _touch(self) -> None:
+        if self.sched is not None:
+            self.sched.touch()
+
     def start(self) -> Optional[BaseException]:
         try:
             self.interp.start()
@@ -188,6 +192,8 @@ class SyncDriver:
         except Exception as exc:  # library errors are observations, not crashes
             self.raised.append(exc)
             return exc
+        finally:
+            self._touch()
 
     def send(self, etype: str, **payload: Any) -> Optional[BaseException]:
         try:
@@ -196,6 +202,8 @@ class SyncDriver:
         except Exception as exc:
             self.raised.append(exc)
             return exc
+        finally:
+            self._touch()
 
     def send_obj(self, ev: Any) -> Optional[BaseException]:
         try:
